@@ -186,7 +186,7 @@ def make(interp):
     def b_list(it=()):
         if hasattr(it, '_tolist'):
             return it._tolist()
-        return list(interp.iterate(it))
+        return core.TList(interp.iterate(it))
 
     @model
     def b_tuple(it=()):
@@ -232,11 +232,25 @@ def make(interp):
                 kk, vv = list(interp.iterate(kv))
                 d[kk] = vv
             d.update(k)
-            return d
-        return dict(*a, **k)
+            return core.TDict(d)
+        return core.TDict(*a, **k)
 
     @model
     def b_sorted(it, *, key=None, reverse=False):
+        if isinstance(it, core.TList) and it._coll is not None:
+            # PY-SORTED over a list built by FOREACH / COLLECT loops: the key is evaluated on every generic element (it may raise),
+            # the result is described, not enumerated
+            chunks, prefix = core.collected_chunks(it)
+            if prefix:
+                raise Unsupported('sorted() of a collected list with a concrete prefix')
+            keys = []
+            for ch in chunks:
+                for _, v in ch.leaves():
+                    keys.append(interp.call(key, [v], {}) if key is not None else v)
+            core.ctx().lib_used.add('PY-SORTED (a permutation of the input, ascending by key, ties in input order)')
+            out = core.TList()
+            out._coll = [core.SortedView(it, keys, bool(reverse), key is not None)]
+            return out
         xs = list(interp.iterate(it))
         keys = [interp.call(key, [x], {}) if key is not None else x for x in xs]
         if any(is_sym(k) for k in keys):
@@ -249,12 +263,12 @@ def make(interp):
                 while pos > 0 and truth(keys[i] < keys[order[pos - 1]]):
                     pos -= 1
                 order.insert(pos, i)
-            return [xs[i] for i in order]
+            return core.TList(xs[i] for i in order)
         order = sorted(range(len(xs)), key=lambda i: keys[i], reverse=reverse)
         if reverse:
             # python's reverse sort is stable: equal keys keep original order
             order = sorted(range(len(xs)), key=lambda i: _Rev(keys[i]))
-        return [xs[i] for i in order]
+        return core.TList(xs[i] for i in order)
 
     class _Rev:
         def __init__(self, k):
